@@ -86,6 +86,18 @@ def catalogue(thorough):
         add('community_louvain', tag, W, gamma=1, B='modularity', ci=None)
         add('modularity_louvain_und', tag, W, gamma=1, hierarchy=True)
         add('modularity_finetune_und', tag, W, gamma=1, ci=None)
+    # inputs where >= 3 modules survive the first level and the second level merges two of them
+    for tag, ci in (('three_pairs6', [1, 1, 2, 2, 3, 3]), ('three_pairs6', [1, 1, 2, 2, 3, 4]),
+                    ('three_pairs6', [1, 2, 3, 3, 4, 4]), ('three_pairs6', [1, 1, 2, 3, 4, 4]),
+                    ('pair_node_pair5', [1, 1, 2, 3, 4]), ('pair_node_pair5', [1, 1, 2, 3, 3]),
+                    ('pair_chain6', [1, 1, 2, 2, 3, 3]), ('pair_node_pair5', None), ('three_pairs6', None)) + \
+            ((('pair_chain6', None),) if thorough else ()):
+        W = named[tag]
+        for g in ((1, 0.75) if ci is not None else (1,)):
+            add('community_louvain', tag, W, gamma=g, B='modularity', ci=ci)
+        add('modularity_finetune_und', tag, W, gamma=1, ci=ci)
+        if ci is None and (thorough or len(W) < 6):
+            add('modularity_louvain_und', tag, W, gamma=1, hierarchy=True)
     W = named['two_dtriangles_shared5']
     add('modularity_louvain_dir', 'two_dtriangles_shared5', W, gamma=1, hierarchy=True)
     add('community_louvain', 'two_dtriangles_shared5', W, gamma=1, B='modularity', ci=None)
